@@ -207,6 +207,9 @@ func (st *State) exec(g *Goroutine, fr *Frame, in ssa.Instruction) status {
 			name = "alloc"
 		}
 		p := st.allocType(et, name)
+		if st.isModelFn(fr.fn) {
+			p.obj.syncObj = true // state of the models (context model, harness models): their synchronisation is not the subject
+		}
 		st.set(fr, x, p)
 		return stNext
 	case *ssa.FieldAddr:
@@ -279,7 +282,11 @@ func (st *State) exec(g *Goroutine, fr *Frame, in ssa.Instruction) status {
 			st.unsupported("make slice of %d elements", c)
 		}
 		et := x.Type().Underlying().(*types.Slice).Elem()
-		st.set(fr, x, st.makeSlice(et, int(n), int(c)))
+		ms := st.makeSlice(et, int(n), int(c))
+		if st.isModelFn(fr.fn) {
+			ms.obj.syncObj = true
+		}
+		st.set(fr, x, ms)
 		return stNext
 	case *ssa.Slice:
 		st.set(fr, x, st.sliceOp(fr, x))
@@ -353,6 +360,26 @@ func (st *State) exec(g *Goroutine, fr *Frame, in ssa.Instruction) status {
 	}
 	st.unsupported("instruction %T: %v", in, in)
 	return stEnd
+}
+
+// isModelFn: the function belongs to the harness runtime or to a harness file (zz_verif_*.go overlay).
+func (st *State) isModelFn(fn *ssa.Function) bool {
+	if v, ok := st.eng.modelFn.Load(fn); ok {
+		return v.(bool)
+	}
+	root := fn
+	for root.Parent() != nil {
+		root = root.Parent()
+	}
+	res := false
+	if root.Pkg != nil && (root.Pkg.Pkg.Path() == verifPkg || strings.HasSuffix(root.Pkg.Pkg.Path(), "/zzvnet")) {
+		res = true
+	} else if root.Pos().IsValid() {
+		f := st.eng.prog.Fset.Position(root.Pos()).Filename
+		res = strings.HasPrefix(shortFile(f), "zz_verif_")
+	}
+	st.eng.modelFn.Store(fn, res)
+	return res
 }
 
 // ---------- calls ----------
@@ -1579,6 +1606,7 @@ func (st *State) mapFind(m *MapObj, key Value) int {
 }
 
 func (st *State) mapUpdate(m *MapObj, key, val Value) {
+	st.raceMap(m, true)
 	i := st.mapFind(m, key)
 	if i >= 0 {
 		old := m.entries[i].val
@@ -1617,6 +1645,7 @@ func (st *State) mapDelete(m *MapObj, key Value) {
 	if m == nil {
 		return
 	}
+	st.raceMap(m, true)
 	i := st.mapFind(m, key)
 	if i >= 0 {
 		m.entries[i].dead = true
@@ -1648,6 +1677,7 @@ func (st *State) lookup(fr *Frame, x *ssa.Lookup) Value {
 	mt := x.X.Type().Underlying().(*types.Map)
 	var val Value
 	found := false
+	st.raceMap(m, false)
 	if m != nil {
 		if i := st.mapFind(m, key); i >= 0 {
 			val, found = m.entries[i].val, true
